@@ -19,6 +19,9 @@ def payload_fp(p):
         return ("seq", tuple(tuple(sorted((str(k), v) for k, v in r.items())) for r in p.rows))
     if isinstance(p, iteration.RowMapping):
         return ("map", tuple(str(k) for k in p.unique_key), tuple(tuple(sorted((str(k), v) for k, v in r.items())) for r in p.rows.values()))
+    if isinstance(p, iteration.ChainRowIterable):
+        # a lazily chained payload: its observable content is what iterating it yields
+        return ("chain", tuple(tuple(sorted((str(k), v) for k, v in r.items())) for r in p))
     rows = getattr(p, "_rows", None)
     if rows is not None:
         return ("counting", tuple(tuple(sorted((str(k), v) for k, v in r.items())) for r in rows))
